@@ -30,9 +30,9 @@ Definition live (s : state) : list tok := transit s ++ safe s ++ lost s.
 Definition anywhere (s : state) : list tok := live s ++ filtered s.
 
 Ltac unfold_locs :=
-  unfold anywhere, live, transit, safe, set_in, set_work, set_buf, set_pph, set_cph, set_phase, do_accept, new_item in *;
+  unfold anywhere, live, transit, safe, add_received, set_in, set_work, set_buf, set_pph, set_cph, set_phase, do_accept, new_item in *;
   cbn [phase open_conns ingested conn_buf sink_batch key_buf chans hand cur lastid pipes pph cph queue fhand window
-       leftovers unacked files acked dropped filtered lost q_chunk q_loaded q_saved c_toks c_id c_pipe] in *.
+       leftovers unacked files acked dropped filtered lost received q_chunk q_loaded q_saved c_toks c_id c_pipe] in *.
 
 Ltac norm_in :=
   repeat (rewrite ?toks_of_batches_app, ?toks_of_items_app, ?toks_of_chunks_app, ?in_app_iff, ?singleton_batches_toks in *).
